@@ -116,7 +116,7 @@ def run(facts, cg, reviewed=None):
                 local_call = isinstance(vt, tuple) and vt[0] == 'call' and vt[1] in {x.q for x in facts.bodies.values()}
                 if not any(any(n_[0] == 'call' and n_[1].split('::')[-1] in ('count', 'len', 'position', 'fold') for n_ in walk(a_)) for a_ in alts) and not local_call:
                     continue        # not the run length (a decrement, a reset)
-                if any(has_field(a_, f_) for a_ in alts for f_ in usz):
+                if any(has_field(a_, st['pl']['p'][-1].get('n')) for a_ in alts):
                     continue        # an update of the counter from itself
                 n_run += 1
 
